@@ -136,28 +136,31 @@ def _encodes_empty(t, x):
     return False
 
 
-def strip_empty_optional_records(T, v):
-    """v with every OPTIONAL component removed whose type is a record without mandatory members and whose
-    value has an empty encoding - 'absent' and 'present but empty' are identified (finding F03)."""
+def strip_empty_optional_records(T, v, of_too=False):
+    """v with every OPTIONAL component removed whose type is a record without mandatory members (of_too: or a
+    SEQUENCE OF / SET OF) and whose value has an empty encoding: 'absent' and 'present but empty' are
+    identified (findings F03 / F05)."""
     k = T['k']
     if k in ir.RECORD_KINDS:
         out = {}
         for c in T['comps']:
             if c['name'] not in v:
                 continue
-            x = strip_empty_optional_records(c['t'], v[c['name']])
-            if c['p'] == 'opt' and c['t']['k'] in ir.RECORD_KINDS and \
-                    all(cc['p'] != 'req' for cc in c['t']['comps']) and _encodes_empty(c['t'], x):
+            x = strip_empty_optional_records(c['t'], v[c['name']], of_too)
+            ck = c['t']['k']
+            if c['p'] == 'opt' and _encodes_empty(c['t'], x) and (
+                    (ck in ir.RECORD_KINDS and all(cc['p'] != 'req' for cc in c['t']['comps'])) or
+                    (of_too and ck in ir.OF_KINDS)):
                 continue
             out[c['name']] = x
         return out
     if k in ir.OF_KINDS:
-        return [strip_empty_optional_records(T['of'], x) for x in v]
+        return [strip_empty_optional_records(T['of'], x, of_too) for x in v]
     if k == 'CHOICE':
         name, inner = v
         for a in T['alts']:
             if a['name'] == name:
-                return (name, strip_empty_optional_records(a['t'], inner))
+                return (name, strip_empty_optional_records(a['t'], inner, of_too))
     return v
 
 
@@ -178,3 +181,136 @@ def map_values(T, v, fn):
 
 def case_of(failure):
     return ir.from_jsonable(failure['case'])
+
+
+# ------------------------------------------------------------------ neutralising transformations
+# Each removes one finding's triggering feature from (T, v) and keeps everything else, in particular
+# the outermost tag of every node (so the distinct-tag rules stay satisfied).
+
+def _map_type(T, fn):
+    """Deep copy of T with fn applied to every node copy (post-order)."""
+    t = dict(T)
+    k = T['k']
+    if k in ir.RECORD_KINDS:
+        t['comps'] = [dict(c, t=_map_type(c['t'], fn)) for c in T['comps']]
+    elif k in ir.OF_KINDS:
+        t['of'] = _map_type(T['of'], fn)
+    elif k == 'CHOICE':
+        t['alts'] = [dict(a, t=_map_type(a['t'], fn)) for a in T['alts']]
+    t['tags'] = [list(x) for x in T.get('tags', ())]
+    return fn(t) or t
+
+
+def _collapse_tags(t):
+    stack, _hb = ir.tag_stack(t)
+    if stack and stack[0][0] != 'U':
+        t['tags'] = [['I', stack[0][0], stack[0][1]]]
+    else:
+        t['tags'] = []
+    return t
+
+
+def neutralise_explicit_prims(T, v):
+    """EXPLICIT tags over BOOLEAN/INTEGER/ENUMERATED/NULL/OID/REAL become one IMPLICIT tag (same outer tag)."""
+    def fn(t):
+        if t['k'] in NONINDEF_PRIMS and has_explicit(t):
+            return _collapse_tags(t)
+    return _map_type(T, fn), v
+
+
+def neutralise_tagged_any(T, v):
+    """A tagged ANY becomes an OCTET STRING with the same outermost tag (IMPLICIT)."""
+    def fn(t):
+        if t['k'] == 'ANY' and t.get('tags'):
+            t['k'] = 'OCTETSTRING'
+            return _collapse_tags(t)
+    return _map_type(T, fn), v
+
+
+def neutralise_real10(T, v):
+    def fn(t, x):
+        if t['k'] == 'REAL' and isinstance(x, tuple) and x[1] == 10:
+            return (x[0], 2, x[2])
+        return x
+    T2 = _map_type(T, lambda t: None)
+    for t in type_nodes(T2):
+        if t['k'] in ir.RECORD_KINDS:
+            for c in t['comps']:
+                if c['p'] == 'def':
+                    c['d'] = fn(c['t'], c['d'])
+    return T2, map_values(T2, v, fn)
+
+
+def by_neutralising(run_case, feature, transform, subs=None, kinds=None, extra=None, others=()):
+    """Attribution rule: the case has the feature, and the failing (sub, kind) disappears when the feature - and
+    nothing else - is removed from the case by `transform`."""
+    def pred(failure):
+        if subs is not None and failure['sub'] not in subs:
+            return False
+        if kinds is not None and failure['kind'] not in kinds:
+            return False
+        case = case_of(failure)
+        if extra is not None and not extra(case):
+            return False
+        if not feature(case['T'], case['v']):
+            return False
+        T2, v2 = transform(case['T'], case['v'])
+        c2 = dict(case, T=T2, v=v2)
+        for f in run_case(c2):
+            if f['sub'] == failure['sub'] and f['kind'] == failure['kind']:
+                # still failing: only acceptable if another listed finding explains what is left
+                f2 = dict(f, case=ir.to_jsonable(c2), obs=ir.to_jsonable(f.get('obs')))
+                if not any(o(f2) for o in others):
+                    return False
+        return True
+    return pred
+
+
+# ------------------------------------------------------------------ model of finding F05 (ifNotEmpty)
+
+MISSING = object()
+
+
+def cer_drop(T, v, flag=False):
+    """What the CER/DER encoders actually write for v: the `ifNotEmpty` option, set for an OPTIONAL component,
+    stays in force for everything nested below it (until the next record component resets it), and makes every
+    constructed element with empty contents vanish. -> the value denoted by the output, or MISSING."""
+    k = T['k']
+    if k in ir.RECORD_KINDS:
+        out = {}
+        for c in T['comps']:
+            if c['name'] in v:
+                x = cer_drop(c['t'], v[c['name']], c['p'] == 'opt')
+                if x is not MISSING:
+                    out[c['name']] = x
+        if flag and _encodes_empty(T, out):
+            return MISSING
+        return out
+    if k in ir.OF_KINDS:
+        out = [x for x in (cer_drop(T['of'], e, flag) for e in v) if x is not MISSING]
+        if flag and not out:
+            return MISSING
+        return out
+    if k == 'CHOICE':
+        name, inner = v
+        for a in T['alts']:
+            if a['name'] == name:
+                x = cer_drop(a['t'], inner, flag)
+                return MISSING if x is MISSING else (name, x)
+    return v
+
+
+def well_formed(T, v):
+    """Every mandatory component present (used on the output of cer_drop)."""
+    k = T['k']
+    if v is MISSING:
+        return False
+    if k in ir.RECORD_KINDS:
+        return all((c['name'] in v and well_formed(c['t'], v[c['name']])) if c['p'] == 'req'
+                   else (c['name'] not in v or well_formed(c['t'], v[c['name']])) for c in T['comps'])
+    if k in ir.OF_KINDS:
+        return all(well_formed(T['of'], x) for x in v)
+    if k == 'CHOICE':
+        name, inner = v
+        return any(a['name'] == name and well_formed(a['t'], inner) for a in T['alts'])
+    return True
